@@ -129,7 +129,8 @@ impl Check for Admission {
         let mut ops = Vec::new();
         for _ in 0..n {
             let a = rng.below(pool.len() as u64);
-            match rng.weighted(&[30, 12, 14, 4, 4, 3, 3, 6, if n_api > 0 { 8 } else { 0 }, if n_api > 0 { 2 } else { 0 }, if n_api > 0 { 5 } else { 0 }, if n_groups > 0 { 4 } else { 0 }]) {
+            match rng.weighted(&[30, 12, 14, 4, 4, 3, 3, 6, if n_api > 0 { 8 } else { 0 }, if n_api > 0 { 2 } else { 0 }, if n_api > 0 { 5 } else { 0 }, if n_groups > 0 { 4 } else { 0 }, if n_groups > 0 { 5 } else { 0 }]) {
+                12 => ops.push(jarr![if rng.chance(3, 5) { "dyn-del" } else { "dyn-add" }, rng.below(n_groups.max(1))]),
                 0 => ops.push(jarr!["conn", a, rng.below(4), *rng.pick(&[0u64, 1, 3, 5, 15]), rng.below(4)]),
                 1 => ops.push(jarr!["handshake", a]),
                 2 => ops.push(jarr!["close", a]),
@@ -163,7 +164,7 @@ impl Check for Admission {
 
     fn info(&self) -> CheckInfo {
         CheckInfo {
-            rule: "1-3 static neighbours (eBGP / iBGP / RR client / RS client / confed member, admin-down flags, hold 0/9/90/180, family sets, add-path modes, GR) and 0-3 peer groups with dynamic prefixes (nested and overlapping IPv4, IPv6, 0.0.0.0/0); connections from 11 source addresses inside and outside them; ops connect (with a drawn remote capability list: family set, add-path mode 0-3, GR), complete the handshake, close, open a second connection in the same direction, operator disable/enable, waits, `api-add` / `api-upd` / `api-del` (0-2 further neighbours configured, re-configured and removed through the real AddPeer / UpdatePeer / DeletePeer handlers, 2 of 3 as members of a named peer group whose AS, hold time, families, add-path and route-server flag they inherit where they have none of their own, with graceful restart and per-family prefix limits of their own), `grp-upd` (UpdatePeerGroup with another hold time, family set, add-path mode, graceful restart; dynamic neighbours created afterwards are judged against the new values), and `dial`: the remote side of a non-passive neighbour listens and takes the daemon's own outgoing connection, in one third of the cases with an operator task that disables the neighbour at the instant the TCP handshake completes (after the connect task queued the socket, before the dispatch loop took it). Oracle on the wire and on Global: a connection is served (OPEN sent) iff the reference admission predicate holds, otherwise closed before any OPEN byte; the OPEN's AS (confederation id towards non-members), hold time, router id and capability list (families, add-path, graceful restart with its time and families, LLGR with its families and stale times, 4-octet AS) equal the neighbour's or group's configuration; the prefix limits in the peer record equal the configured ones; role read back from the peer record equals the reference; both negotiate(a,b)/negotiate(b,a) give mirror-image parameters; a dynamic neighbour's record disappears when its last connection ends. non-trivial = at least one dynamic neighbour was created or one connection was refused".into(),
+            rule: "1-3 static neighbours (eBGP / iBGP / RR client / RS client / confed member, admin-down flags, hold 0/9/90/180, family sets, add-path modes, GR) and 0-3 peer groups with dynamic prefixes (nested and overlapping IPv4, IPv6, 0.0.0.0/0); connections from 11 source addresses inside and outside them; ops connect (with a drawn remote capability list: family set, add-path mode 0-3, GR), complete the handshake, close, open a second connection in the same direction, operator disable/enable, waits, `api-add` / `api-upd` / `api-del` (0-2 further neighbours configured, re-configured and removed through the real AddPeer / UpdatePeer / DeletePeer handlers, 2 of 3 as members of a named peer group whose AS, hold time, families, add-path and route-server flag they inherit where they have none of their own, with graceful restart and per-family prefix limits of their own), `dyn-del` / `dyn-add` (a group's dynamic prefix removed through DeleteDynamicNeighbor and configured again; connections from its addresses afterwards are judged against the prefixes that are left), `grp-upd` (UpdatePeerGroup with another hold time, family set, add-path mode, graceful restart; dynamic neighbours created afterwards are judged against the new values), and `dial`: the remote side of a non-passive neighbour listens and takes the daemon's own outgoing connection, in one third of the cases with an operator task that disables the neighbour at the instant the TCP handshake completes (after the connect task queued the socket, before the dispatch loop took it). Oracle on the wire and on Global: a connection is served (OPEN sent) iff the reference admission predicate holds, otherwise closed before any OPEN byte; the OPEN's AS (confederation id towards non-members), hold time, router id and capability list (families, add-path, graceful restart with its time and families, LLGR with its families and stale times, 4-octet AS) equal the neighbour's or group's configuration; the prefix limits in the peer record equal the configured ones; role read back from the peer record equals the reference; both negotiate(a,b)/negotiate(b,a) give mirror-image parameters; a dynamic neighbour's record disappears when its last connection ends. non-trivial = at least one dynamic neighbour was created or one connection was refused".into(),
             components_real: vec!["accept_connection, Global::add_peer, PeerParams::{build,build_local_cap}, Peer::peer_role, PeerSession::run (delete-on-disconnect)".into(), "packet::{IpNet::contains, PeerCodec::negotiate}".into(), "fsm::PeerFsm (effective send-max)".into(), "GrpcService::{disable_peer,enable_peer}".into()],
             components_stubbed: vec!["TCP (the remote address is whatever the scenario says), clock, listener loop, remote speakers".into()],
             assumptions: vec!["where several dynamic prefixes match, any matching group may be chosen (the statement does not pick one)".into()],
@@ -343,6 +344,8 @@ async fn run(case: Json, tol: Tolerate) -> Outcome {
     let mut admin_down: Vec<bool> = statics.iter().map(|s| s.admin_down).collect();
     let mut refused = 0u64;
     let mut dynamic_created = 0u64;
+    // whether a group's dynamic prefix is configured at the moment (DeleteDynamicNeighbor / AddDynamicNeighbor)
+    let mut grp_active: Vec<bool> = vec![true; groups.len()];
 
     macro_rules! fail {
         ($class:expr, $($arg:tt)*) => {{
@@ -429,7 +432,7 @@ async fn run(case: Json, tol: Tolerate) -> Outcome {
                 }
                 // reference admission predicate
                 let st = statics.iter().position(|s| s.addr.parse::<IpAddr>().unwrap() == addr);
-                let matching: Vec<&GroupCfg> = groups.iter().filter(|g| contains(&g.prefix, &addr)).collect();
+                let matching: Vec<&GroupCfg> = groups.iter().enumerate().filter(|(gi, g)| grp_active[*gi] && contains(&g.prefix, &addr)).map(|(_, g)| g).collect();
                 let dyn_exists = { w.global.read().await.peers.contains_key(&addr) } && st.is_none();
                 let expect_admit = match st {
                     Some(i) => !admin_down[i] && !has,
@@ -724,6 +727,38 @@ async fn run(case: Json, tol: Tolerate) -> Outcome {
                 if w.grpc.update_peer_group(tonic::Request::new(api::UpdatePeerGroupRequest { peer_group: Some(api_group_msg(&name, &g2)), ..Default::default() })).await.is_ok() {
                     groups[gi] = g2;
                     out.hit("op.peer-group-updated");
+                }
+            }
+            "dyn-del" | "dyn-add" if !groups.is_empty() => {
+                // The operator takes a group's dynamic prefix away (DeleteDynamicNeighbor) or configures it
+                // again. Dynamic neighbours that exist were admitted under the old configuration: our side
+                // closes their connections first, so that every connection judged from here on is a new one.
+                let gi = op.at(1).as_usize() % groups.len();
+                let dynamic: Vec<usize> = conns.keys().copied().filter(|a| !statics.iter().any(|s| s.addr == pool[*a].to_string())).collect();
+                for a in dynamic {
+                    if let Some(mut sp) = conns.remove(&a) {
+                        sp.close();
+                    }
+                }
+                for _ in 0..3 {
+                    w.quiesce().await;
+                }
+                let name = format!("g{}", gi);
+                if tag == "dyn-del" {
+                    let r = w.grpc.delete_dynamic_neighbor(tonic::Request::new(api::DeleteDynamicNeighborRequest { prefix: groups[gi].prefix.clone(), peer_group: name })).await;
+                    if r.is_ok() != grp_active[gi] {
+                        fail!("config/delete-dynamic-neighbor-result", "op {} {}: prefix {} of group {} configured={} but DeleteDynamicNeighbor ok={}", opi, op.to_compact(), groups[gi].prefix, gi, grp_active[gi], r.is_ok());
+                    }
+                    grp_active[gi] = false;
+                    out.hit("op.dynamic-prefix-deleted");
+                } else {
+                    let r = w.grpc.add_dynamic_neighbor(tonic::Request::new(api::AddDynamicNeighborRequest { dynamic_neighbor: Some(api::DynamicNeighbor { prefix: groups[gi].prefix.clone(), peer_group: name }) })).await;
+                    if r.is_ok() {
+                        grp_active[gi] = true;
+                        out.hit("op.dynamic-prefix-added");
+                    } else if !grp_active[gi] {
+                        fail!("config/add-dynamic-neighbor-refused", "op {} {}: prefix {} of group {} is not configured but AddDynamicNeighbor was refused: {:?}", opi, op.to_compact(), groups[gi].prefix, gi, r.err());
+                    }
                 }
             }
             "api-del" if !api_peers.is_empty() => {
